@@ -174,6 +174,92 @@ def _kw_overlay(kind):
     return ov
 
 
+class _IfExp2If(ast.NodeTransformer):
+    """x = a if c else b   →   if c: x = a  else: x = b   (plain single-target assignments inside functions)"""
+    def visit_Assign(self, node):
+        if isinstance(node.value, ast.IfExp) and len(node.targets) == 1 and isinstance(node.targets[0], (ast.Name, ast.Attribute)):
+            import copy
+            a = ast.Assign(targets=[copy.deepcopy(node.targets[0])], value=node.value.body, lineno=node.lineno)
+            b = ast.Assign(targets=[copy.deepcopy(node.targets[0])], value=node.value.orelse, lineno=node.lineno)
+            return ast.copy_location(ast.If(test=node.value.test, body=[a], orelse=[b]), node)
+        return node
+
+    def visit_ClassDef(self, node):
+        for i, st in enumerate(node.body):
+            if isinstance(st, (ast.FunctionDef, ast.AsyncFunctionDef)):
+                node.body[i] = self.visit(st)
+        return node
+
+    def visit_Module(self, node):
+        for i, st in enumerate(node.body):
+            if isinstance(st, (ast.FunctionDef, ast.AsyncFunctionDef, ast.ClassDef)):
+                node.body[i] = self.visit(st)
+        return node
+
+
+def _ends_abruptly(body):
+    return bool(body) and isinstance(body[-1], (ast.Return, ast.Raise, ast.Continue, ast.Break))
+
+
+class _EarlyElse(ast.NodeTransformer):
+    """if c: ...; return X        →   if c: ...; return X
+       rest                            else: rest"""
+    def _block(self, stmts):
+        out = []
+        for i, st in enumerate(stmts):
+            st = self.visit(st)
+            if isinstance(st, ast.If) and not st.orelse and _ends_abruptly(st.body) and i + 1 < len(stmts):
+                rest = self._block(stmts[i + 1:])
+                st.orelse = rest
+                out.append(st)
+                return out
+            out.append(st)
+        return out
+
+    def generic_visit(self, node):
+        super().generic_visit(node)
+        for fld in ("body", "orelse", "finalbody"):
+            b = getattr(node, fld, None)
+            if isinstance(b, list) and b and isinstance(b[0], ast.stmt) and not isinstance(node, (ast.Module, ast.ClassDef)):
+                setattr(node, fld, self._block_novisit(b))
+        return node
+
+    def _block_novisit(self, stmts):
+        out = []
+        for i, st in enumerate(stmts):
+            if isinstance(st, ast.If) and not st.orelse and _ends_abruptly(st.body) and i + 1 < len(stmts):
+                st.orelse = self._block_novisit(stmts[i + 1:])
+                out.append(st)
+                return out
+            out.append(st)
+        return out
+
+
+class _NotSwap(ast.NodeTransformer):
+    """if c: A else: B   →   if not c: B else: A   (only when both arms exist and the else arm is not an elif chain)"""
+    def visit_If(self, node):
+        self.generic_visit(node)
+        if node.orelse and not (len(node.orelse) == 1 and isinstance(node.orelse[0], ast.If)):
+            node.test = ast.UnaryOp(op=ast.Not(), operand=node.test)
+            node.body, node.orelse = node.orelse, node.body
+        return node
+
+
+class _CmpFlip(ast.NodeTransformer):
+    """a < b → b > a, a <= b → b >= a, a == b → b == a, a != b → b != a (single-operator comparisons)"""
+    FLIP = {ast.Lt: ast.Gt, ast.Gt: ast.Lt, ast.LtE: ast.GtE, ast.GtE: ast.LtE, ast.Eq: ast.Eq, ast.NotEq: ast.NotEq}
+
+    def visit_Compare(self, node):
+        self.generic_visit(node)
+        if len(node.ops) == 1 and type(node.ops[0]) in self.FLIP:
+            return ast.copy_location(ast.Compare(left=node.comparators[0], ops=[self.FLIP[type(node.ops[0])]()],
+                                                 comparators=[node.left]), node)
+        return node
+
+
+_SIMPLE = {"ifexp2if": _IfExp2If, "earlyelse": _EarlyElse, "notswap": _NotSwap, "cmpflip": _CmpFlip}
+
+
 def overlay(kind):
     if kind in ('kw', 'pos'):
         return _kw_overlay(kind)
@@ -192,6 +278,9 @@ def overlay(kind):
                         compile(ov[rel], rel, "exec")
                     elif kind == "assert2if":
                         ov[rel] = ast.unparse(ast.fix_missing_locations(_Assert2If().visit(ast.parse(src)))) + "\n"
+                        compile(ov[rel], rel, "exec")
+                    elif kind in _SIMPLE:
+                        ov[rel] = ast.unparse(ast.fix_missing_locations(_SIMPLE[kind]().visit(ast.parse(src)))) + "\n"
                         compile(ov[rel], rel, "exec")
                     elif kind == "hoist":
                         ov[rel] = ast.unparse(ast.fix_missing_locations(_Hoister().visit(ast.parse(src)))) + "\n"
@@ -219,7 +308,12 @@ for kind in KINDS:
             print(f"{kind} {pid}: CRASH {type(e).__name__} {e} at {tb.filename}:{tb.lineno}"); bad += 1; continue
         b = {o.key: o.ok for o in base.obs}
         t = {o.key: o.ok for o in tw.obs}
-        if b != t:
+        from collections import Counter
+        if b != t and Counter((o.rule, o.ok) for o in base.obs) == Counter((o.rule, o.ok) for o in tw.obs) \
+                and not any(v is False for k, v in t.items() if b.get(k) is not False):
+            diff = [k for k in set(b) | set(t) if b.get(k) != t.get(k)]
+            print(f"{kind} {pid}: identical verdicts per rule; {len(diff)} obligation key(s) are spelled differently")
+        elif b != t:
             bad += 1
             diff = [(k, b.get(k), t.get(k)) for k in set(b) | set(t) if b.get(k) != t.get(k)]
             print(f"{kind} {pid}: {len(diff)} obligation(s) differ, e.g. {diff[:3]}")
